@@ -1106,4 +1106,22 @@ theorem crash_restart_diverges :
   intro chs1 chs2 chs3 stale
   exact ⟨_, _, _, _, rfl, rfl, by decide, by decide, rfl, rfl, by decide, by decide⟩
 
+/-- (R) REFUTED for the CURRENT code once a candidate has un-registered (the consequence of
+    `rerank_unregistered_refuted` met on the real engine at seed 11): max 2; 2(50000), 1(0), 4(0)
+    register and become stable; the next block un-registers 1 (0 votes before and after: no VotesLog,
+    `Ranking` returns early and the published list keeps it).  The node that keeps running publishes
+    `[2:50000, 1:0]` for that block, a node that re-opens on it publishes `[2:50000, 4:0]` (start-up
+    keeps isCandidate = "true" only) — which is the full sort of the registered candidates.  A snapshot
+    block mined by the second node carries deputies the first node does not derive, and is refused. -/
+theorem unregistered_restart_diverges :
+    let chs1 : List Change := [⟨2, .yes, 50000, true⟩, ⟨1, .yes, 0, true⟩, ⟨4, .yes, 0, true⟩]
+    let chs2 : List Change := [⟨1, .no, 0, false⟩]
+    ∃ b1 live,
+      applyBlock true 2 0 {} chs1 [] = .ok b1 ∧ applyBlock true 2 1 b1 chs2 [] = .ok live ∧
+      live.top = [⟨2, 50000⟩, ⟨1, 0⟩] ∧
+      (restartBlk true 2 (commitPersist (commitPersist [] chs1) chs2) live).top = [⟨2, 50000⟩, ⟨4, 0⟩] ∧
+      topOf 2 (registered live.accts) = [⟨2, 50000⟩, ⟨4, 0⟩] := by
+  intro chs1 chs2
+  exact ⟨_, _, rfl, rfl, by decide, by decide, by decide⟩
+
 end LemoProofs.C10
